@@ -137,6 +137,16 @@ func changeSets(d *dfu.Dialect, pairs bool) (names []string, sets [][]schema.Cha
 	add("fanout_drop", fan(), empty())
 	add("cycle_create", empty(), cyc())
 	add("cycle_drop", cyc(), empty())
+	if d == dfu.Postgres {
+		// an enum type that loses most of its values (whatever the planner makes of it - statements or a
+		// refusal - is the same text every time).
+		sc := empty()
+		from := &schema.EnumType{T: "mood8", Schema: sc, Values: []string{"v1", "v2", "v3", "v4", "v5", "v6", "v7", "v8"}}
+		to := &schema.EnumType{T: "mood8", Schema: sc, Values: []string{"v1"}}
+		names, sets = append(names, "enum_values_dropped"), append(sets, []schema.Change{&schema.ModifyObject{From: from, To: to}})
+		to2 := &schema.EnumType{T: "mood8", Schema: sc, Values: []string{"v0", "v1", "v4", "v9"}}
+		names, sets = append(names, "enum_values_dropped_and_added"), append(sets, []schema.Change{&schema.ModifyObject{From: from, To: to2}})
+	}
 	return
 }
 
